@@ -210,6 +210,50 @@ def reentrant(kind):
     sx.reach("reentrant")
 
 
+def raising_callback(k):
+    """The application's callback raises for some of the frames (EmcyError objects are exceptions meant to be
+    raised) or looks at the consumer when it is called: every frame is still logged, the active list still follows
+    the resets, and at the time of a callback the frame it is called for is the newest log entry."""
+    cons = emcy().EmcyConsumer()
+    frames = [_frame("f%d" % i) for i in range(k)]
+    stamps = [sx.fresh_int("t%d" % i, 0, 1 << 40) for i in range(k)]
+    raise_on = [sx.fresh_bool("raise%d" % i) for i in range(k)]
+    seen = []
+    state = {"i": 0}
+
+    def cb(e):
+        seen.append((len(cons.log), bool(cons.log) and cons.log[-1] is e, len(cons.active)))
+        if raise_on[state["i"]]:
+            raise e
+
+    cons.add_callback(cb)
+    tag = "C16/raising-callback"
+    raised = 0
+    for i in range(k):
+        state["i"] = i
+        try:
+            cons.on_emcy(0x81, frames[i], stamps[i])
+        except emcy().EmcyError:
+            raised += 1
+        except Exception as e:
+            sx.observe("exc", C_exc(e))
+            sx.fail("on_emcy raised %s" % C_exc(e), tag + "/raises")
+            return
+    sx.observe("seen", seen)
+    sx.prove(len(cons.log) == k, "one log entry per frame although a callback raised", tag + "/log-length")
+    nact = 0
+    for i in range(k):
+        c, r, d = _fields(frames[i])
+        if i < len(cons.log):
+            sx.prove(_same_entry(cons.log[i], c, r, d, stamps[i]), "log entry %d is frame %d" % (i, i), tag + "/log-entry")
+        nact = 0 if sx.concretize((c & 0xFF00) == 0) else nact + 1
+    sx.prove(len(cons.active) == nact, "active list follows the resets", tag + "/active")
+    sx.prove(len(seen) == k, "callback invoked once per frame", tag + "/count")
+    for i, (nl, last, na) in enumerate(seen):
+        sx.prove(nl == i + 1 and last, "at callback time the frame is the newest log entry", tag + "/callback-time")
+    sx.reach("raising-callback")
+
+
 def C_exc(e):
     return type(e).__name__
 
@@ -518,6 +562,8 @@ def jobs(tier):
     out.append(dict(func="description", params={}))
     for kind in ("nested", "reset"):
         out.append(dict(func="reentrant", params=dict(kind=kind)))
+    for k in (1, 2, 3):
+        out.append(dict(func="raising_callback", params=dict(k=k)))
     pats = [(), ("-",), ("m",), ("o", "m"), ("o", "-"), ("o", "o", "m"), ("m", "o")]
     for filtered in (False, True):
         for nf in (1, 2):
@@ -544,7 +590,7 @@ META = dict(
                     "log entry)", "OS-thread interleavings", "data longer than 5 bytes"],
     assumptions=["fake clock: a wake-up without delivery advances time by the time-out"],
     stubs=["struct", "threading.Condition", "time", "bytes"],
-    required_reach=["step", "reset-cleared", "history", "history-reset", "long-step", "reentrant", "two-waiters", "two-waiters-parked", "producer-history", "wait-late", "two-consumers", "reset-keeps", "reset-keeps-parked", "producer", "producer-reset", "desc", "wait-timeout",
+    required_reach=["step", "reset-cleared", "history", "history-reset", "long-step", "reentrant", "raising-callback", "two-waiters", "two-waiters-parked", "producer-history", "wait-late", "two-consumers", "reset-keeps", "reset-keeps-parked", "producer", "producer-reset", "desc", "wait-timeout",
                     "wait-hit", "threads-entry", "threads-none"],
     limits=dict(quick=dict(), thorough=dict(crosscheck_every=2, crosscheck_max=40)),
 )
